@@ -2,6 +2,7 @@
 import itertools, uuid, io, importlib
 from fractions import Fraction
 import common, codec, gen, gen_tables
+import reent
 from codec import Buf
 from common import run_model, res_decode, exn_name
 
@@ -617,6 +618,11 @@ def run_hopping(chk, jobs, kcoll):
         what = None
         try:
             p1 = build(shared)
+            if rng.random() < 0.3:
+                try:
+                    p1.write(reent.FailingSink(rng.choice([0, 1])))      # a write whose socket broke must not leave anything behind
+                except Exception:
+                    pass
             bi1 = write_fields(p1)
             body = varint(e['id']) + bi0
             if bi1 != bi0:
